@@ -17,19 +17,20 @@ def have_own_driver():
 
 def read(p): return open(p).read().split('\n')[:-1]
 
-def run_one(binary, wd, gen_args):
+def run_one(binary, wd, gen_args, timeout=None):
+    timeout = timeout or HARNESS_TIMEOUT
     os.makedirs(wd, exist_ok=True)
     f = {n: os.path.join(wd, n) for n in ('ops', 'impl', 'own', 'model', 'spec', 'ledger')}
     # the code under test may crash the process (stack overflow, fatal error) or hang: both are findings, the last
     # sequence on file (the harness flushes per line) is the failing input
     crash = None
     try:
-        p = subprocess.run([binary, *gen_args, '-impl-out', f['impl'], '-poison', '-own-out', f['own']], timeout=HARNESS_TIMEOUT,
+        p = subprocess.run([binary, *gen_args, '-impl-out', f['impl'], '-poison', '-own-out', f['own']], timeout=timeout,
                            stdout=subprocess.DEVNULL, stderr=subprocess.PIPE)
         if p.returncode != 0:
             crash = 'harness process died (exit %d): %s' % (p.returncode, p.stderr.decode(errors='replace')[:300].replace('\n', ' | '))
     except subprocess.TimeoutExpired:
-        crash = 'harness process hung (> %d s): the code under test does not return' % HARNESS_TIMEOUT
+        crash = 'harness process hung (> %d s): the code under test does not return' % timeout
     ops = f['ops'] if '-ops-out' in gen_args else gen_args[gen_args.index('-replay') + 1]
     if crash is not None:
         for n in ('impl', 'own'):
@@ -64,12 +65,12 @@ def finish_one(ops, f):
 def analyse(ops, impl, own, model, spec, ledger):
     res = {'seqs': 0, 'lines': len(ops), 'problems': [], 'known': collections.Counter(), 'tainted': 0, 'hist': collections.Counter(),
            'views': 0, 'events': 0, 'finals': set(), 'samples': [], 'ledger_compared': 0}
-    cur = None; start = 0; stop = False; nomodel = False
+    cur = None; start = 0; stop = False; nomodel = False; seq_out = False
     n = min(len(ops), len(impl), len(own), len(model), len(spec))
     for i in range(n):
         o = ops[i]
         if o.startswith('seq '):
-            cur = [o]; start = i; stop = False; nomodel = False; res['seqs'] += 1
+            cur = [o]; start = i; stop = False; nomodel = False; seq_out = False; res['seqs'] += 1
             continue
         if cur is None: continue
         cur.append(o)
@@ -94,6 +95,7 @@ def analyse(ops, impl, own, model, spec, ledger):
             # (as far as a model without contents can see them)
             if ledger is not None and i < len(ledger) and not impl[i].startswith('panic'):
                 led = ledger[i].partition('%%')[0]
+                res['cov'] = res.get('cov', collections.Counter()); res['cov'][ledger[i].partition('??')[2].strip() or 'inside-CovV'] += 1
                 lp = [p.strip() for p in led.split('!!', 1)[1].split(';')] if '!!' in led else []
                 a = [p for p in probs if p.split()[0] in MODEL_VISIBLE]; b = [p for p in lp if p.split()[0] in MODEL_VISIBLE]
                 res['ledger_compared'] += 1
@@ -111,6 +113,10 @@ def analyse(ops, impl, own, model, spec, ledger):
         if ledger is not None and i < len(ledger) and not impl[i].startswith('panic'):
             res['ledger_compared'] += 1
             led, _, led_dump = ledger[i].partition('%%')
+            led_dump, _, cov = led_dump.partition('??')       # is the call inside the hypotheses of the theorems?
+            res['cov'] = res.get('cov', collections.Counter()); res['cov'][cov.strip() or 'inside-CovV'] += 1
+            if cov.strip() and not seq_out:
+                seq_out = True; res['cov']['histories-leaving-CovV'] += 1
             if led.split('!!')[0].strip() != ev.strip() or '!!' in led:
                 res['problems'].append((list(cur), i - start, 'ledger-differs', 'op=%s | impl-events=%s | model-events=%s' % (o, ev.strip(), led[:300])))
                 nomodel = True; continue
@@ -133,7 +139,7 @@ def run_many(binary, base_wd, seed, shards, seqs, nops, extra=()):
 def replay_ops(binary, lines, wd):
     os.makedirs(wd, exist_ok=True)
     p = os.path.join(wd, 'replay.ops'); open(p, 'w').write('\n'.join(lines) + '\n')
-    return run_one(binary, wd, ['-replay', p])
+    return run_one(binary, wd, ['-replay', p], timeout=min(HARNESS_TIMEOUT, 30))     # a single sequence takes milliseconds
 
 def shrink(binary, seq, kind, wd):
     def differs(lines):
@@ -165,12 +171,12 @@ def check(rep, prop, kinds, modules):
         r = replay_ops(binary, [l for l in open(f).read().split('\n') if l and not l.startswith('#')], os.path.join(wd, 'corpus'))
         results.append(r)
     results += run_many(binary, wd, rep.seed, shards, seqs, nops, ['-big'] if rep.tier == 'thorough' else [])
-    known = collections.Counter(); hist = collections.Counter(); finals = set(); n = 0; tainted = 0; events = 0; ledger = 0; lnodes = 0; kmodel = 0
+    known = collections.Counter(); hist = collections.Counter(); finals = set(); n = 0; tainted = 0; events = 0; ledger = 0; lnodes = 0; kmodel = 0; covc = collections.Counter()
     for r in results:
         problems += r['problems']; known.update(r['known']); hist.update(r['hist']); finals |= r['finals']
-        n += r['seqs']; tainted += r['tainted']; events += r['events']; ledger += r['ledger_compared']; lnodes += r.get('ledger_nodes', 0); kmodel += r.get('known_on_model', 0)
+        n += r['seqs']; tainted += r['tainted']; events += r['events']; ledger += r['ledger_compared']; lnodes += r.get('ledger_nodes', 0); kmodel += r.get('known_on_model', 0); covc.update(r.get('cov', {}))
     rep.cov.update(evaluations=n, distinct_nontrivial=len(finals), op_histogram=dict(hist), allocator_events=events,
-                   sequences_cut_at_known_finding=tainted, ledger_events_compared=ledger, ledger_node_records_compared=lnodes, known_finding_reproduced_on_model=kmodel, traces_validated_against_impl=n,
+                   sequences_cut_at_known_finding=tainted, ledger_events_compared=ledger, ledger_node_records_compared=lnodes, known_finding_reproduced_on_model=kmodel, calls_vs_theorem_hypotheses=dict(covc), traces_validated_against_impl=n,
                    samples=results[-1]['samples'],
                    rule='contract-respecting LinkBuffer op sequences (generator of C01) executed on the real code with an allocator that never reuses and poisons freed blocks; '
                         'every zero-copy result is re-compared with its snapshot after every later op until its reader is released; every pool Free is checked (once, pool block, no live view, no chained node); '
